@@ -1,26 +1,48 @@
-(* Model/Inbound.v -- executable model of the inbound protocol logic of a v3 / v5 server
-   endpoint (engines "inb3" = 33, "inb5" = 34; case syntax: harness/src/engines/inbound.rs).
+(* Model/Inbound.v -- executable model of the inbound protocol logic of an endpoint: what it does with
+   every packet the peer sends after the handshake.  Four roles:
+     v3 / v5 SERVER  engines "inb3" = 33, "inb5" = 34   [run_inb3] [run_inb5]
+     v3 / v5 CLIENT  engines "cli3" = 39, "cli5" = 40   [run_cli3] [run_cli5]  (section "client roles":
+       src/v3/client/dispatcher.rs, src/v5/client/dispatcher.rs, the router of client/connection.rs;
+       no BufferService: protocol-service calls run concurrently; v3 wraps the dispatcher in ntex-util's
+       InFlightService(max_receive), v5 has no limiter, only the receive-maximum check)
+   Case syntax: harness/src/engines/inbound.rs.
 
    Modelled Rust (line by line where the code is protocol logic, as an abstract machine where it
-   is plumbing):
-     src/v3/dispatcher.rs, src/v5/dispatcher.rs   Service<Decoded>::call, publish_fn,
-                                                   Inner::control / control_pkt, ready, shutdown
-     src/v3/default.rs, src/v5/default.rs          DefaultProtocolService, ControlService::call
-     src/v3/control.rs, src/v5/control.rs          ProtocolMessage::ack and the typed acks
-     src/inflight.rs                               InFlightServiceImpl (v3 limiter; v5 cap 0)
-     src/error.rs, v5/codec/packet/disconnect.rs   reason code of a protocol error
-     src/io.rs                                     Dispatcher::poll (composed with Model/RespQueue.v)
-   plus the parts of ntex-util / ntex-service / ntex-io the observable behaviour depends on:
-     BufferService(16) + InFlightService(1) around the protocol service (buffer, next_call guard,
-     ready flag, Counter waker), the shared-readiness ownership of ntex_service::Pipeline
-     (WaitersRef::run / notify), the FIFO run queue of the single-threaded executor, the
-     dispatch-task waker of ntex-io, read pause / resume, graceful close.
-   Wakers are modelled (who is woken by what, LocalWaker keeps the last registrant), because lost
-   wake-ups of the real code are observable (a buffered control message that is not released).
+   is plumbing), tree d435312:
+     src/v3/dispatcher.rs, src/v5/dispatcher.rs   Service<Decoded>::call ([body3] / [body5]), publish_fn
+                                                   ([handler_result]), Inner::control / control_pkt
+                                                   ([ctl_result]), ready ([r1_poll], [gate]), shutdown
+     src/v3/default.rs, src/v5/default.rs          DefaultProtocolService ([ack3]/[ack5] with res = 9),
+                                                   ControlService::call for Control::Stop ([do_stop])
+     src/v3/control.rs, src/v5/control.rs          ProtocolMessage::ack and the typed acks ([ack3]/[ack5])
+     src/inflight.rs                               InFlightServiceImpl ([lim_inc]/[lim_dec]; v5: cap 0)
+     src/error.rs, v5/codec/packet/disconnect.rs   reason code of a protocol error (the numbers in
+                                                   [proto_err]: 130 = 0x82, 147 = 0x93, 148 = 0x94, 155 = 0x9B)
+     src/io.rs                                     Dispatcher::poll ([d_poll]/[d_loop]), call_service
+                                                   ([d_call_service]), composed with Model/RespQueue.v for
+                                                   the order in which responses reach the wire
+   plus the parts of ntex-util / ntex-service / ntex-io / ntex-rt the observable behaviour depends on:
+     BufferService(16)+InFlightService(1) around the protocol service ([bs_ready0]: the next_call
+       guard (phase A), the poll_fn (phase B), the `ready` flag; three readiness checks in a row before
+       BufferService::call because of the ServiceChain/MapErr layers: [ctl_enter]; flush on shutdown:
+       [shut_flush]); Counter waker ([w_cnt]: LocalWaker keeps the last registrant);
+     the shared readiness of ntex_service::Pipeline (WaitersRef::run / notify): ownership of the
+       check and parked wakers for the io-service pipeline ([sp_cur], [sp_wakers]), for the control
+       pipeline ([w_ctl]) and for BufferService's inner pipeline ([ip_cur], [ip_wakers]);
+     the FIFO run queue of the single-threaded executor ([runq], [wake]: a task woken while it runs
+       is re-queued after its poll), spawned response tasks with select(call, stopping) ([ts_poll];
+       Condition slab keys: [cfree]), the dispatcher's yield after a spawn;
+     ntex-io: dispatch-task waker ([disp_reg]), read pause / resume (every decode attempt resumes a
+       paused read), the Iops write task ([TW]), graceful close ([closing] -> [stopped]): writes are
+       dropped from the moment close() was called.
+   Wakers are modelled because lost wake-ups and busy loops of the real code are observable.  A busy
+   loop of the dispatcher (it re-wakes itself in every poll) burns the fuel of [run_all] and leaves
+   the dispatcher in the run queue, exactly as the harness' settle() leaves it runnable.
 
    Not modelled: streamed payloads (every generated PUBLISH is complete: no PayloadChunk, the
-   payload-sender slot stays empty), timers, write back-pressure, BufferService overflow (more
-   than 16 waiting control messages), maximum packet sizes.  Definitions only. *)
+   payload-sender slot stays empty), timers / keep-alive, write back-pressure, BufferService overflow
+   (more than 16 waiting control messages), maximum packet sizes, retain-not-available.
+   Definitions only. *)
 From MV Require Import Base.Prelude Model.RespQueue.
 
 (* ------------------------------------------------------------------ small list helpers *)
@@ -45,7 +67,8 @@ Inductive pkt :=
 | KPuback (id : N) | KPubrec (id : N) | KPubrel (id : N) | KPubcomp (id : N)
 | KSubscribe (id f : N) | KUnsubscribe (id f : N)
 | KPing | KDisconnect (reason se : N) | KAuth
-| KOther                   (* SUBACK, UNSUBACK, PINGRESP, CONNECT, CONNACK: decoded, ignored *)
+| KAck2                    (* SUBACK, UNSUBACK: ignored by a server, an acknowledgement for a client *)
+| KOther                   (* PINGRESP, CONNECT, CONNACK: decoded, ignored *)
 | KBad (reason : N).       (* does not decode: ProtocolError::Decode, v5 reason code *)
 
 Definition nth0 (l : list N) (n : nat) : N := nth n l 0.
@@ -66,6 +89,8 @@ Definition parse_pkt (v5 : bool) (f : list N) : pkt :=
   | 8 => KPing
   | 9 => if v5 then KDisconnect (a 2%nat) (a 3%nat) else KDisconnect 0 0
   | 10 => if v5 then KAuth else KBad 131
+  | 11 => KAck2
+  | 12 => KAck2
   | _ => KOther
   end.
 
@@ -91,7 +116,8 @@ Inductive cstate :=
 | CBuf (m : cmsg)                           (* BufferService::call: waiting in the buffer *)
 | CRel (m : cmsg)                           (* released (holds the next_call guard), not polled yet *)
 | CWaitCnt (m : cmsg) (g : bool)            (* waiting for InFlightService(1) capacity *)
-| CProto (c : N) (m : cmsg) (g : bool).     (* awaiting protocol service invocation c *)
+| CProto (c : N) (m : cmsg) (g : bool)      (* awaiting protocol service invocation c *)
+| CLimWait (p : pkt).                       (* v3 client: InFlightService::call waits for capacity *)
 
 Record call := mkCall { cid : N; cst : cstate; clim : bool; chost : task; ckey : N }.
 
@@ -103,7 +129,9 @@ Inductive dstate := DProc | DShut (s : shstate) | DShutIo | DDone.
 
 (* ------------------------------------------------------------------ state *)
 Record cfg := mkCfg {
-  v5 : bool; max_qos : N; rmax : N; amax : N; lcap : N; pmode : N }.
+  v5 : bool; max_qos : N; rmax : N; amax : N; lcap : N; pmode : N;
+  role : N;                          (* 0 = server, 1 = client *)
+  route : bool }.                    (* client: ClientRouter with resources t1, t2 *)
 
 Record pst := mkPst {               (* protocol state: dispatcher.rs Inner / PublishInfo, shared flags *)
   inflight : list N; publishes : list N; pubrel : list N; aliases : list (N * N);
@@ -111,7 +139,7 @@ Record pst := mkPst {               (* protocol state: dispatcher.rs Inner / Pub
 
 Record bst := mkBst {               (* BufferService + InFlightService(1) + limiter *)
   buf : list N; cnt : N; nextc : option N; bready : bool;
-  w_cnt : option task; lim : N; w_lim : bool;
+  w_cnt : option task; lim : N; w_lim : option task;
   ip_cur : option owner;            (* WaitersRef of BufferService's inner pipeline: owner of the check *)
   ip_wakers : list (N * task);      (*   ... wakers to notify, one slot per pipeline index (0 = binding, k = call k) *)
   nwak : list (N * task);           (* next_call receiver of call o: the task that polled it last *)
@@ -219,7 +247,7 @@ Definition wake_cnt (s : st) : st :=
 
 (* limiter LocalWaker (only the dispatcher's readiness future registers) *)
 Definition wake_lim (s : st) : st :=
-  if w_lim (b_ s) then wake TD (up_b (b_wlim false) s) else s.
+  let t := w_lim (b_ s) in wake_opt t (up_b (b_wlim None) s).
 
 (* WaitersRef of BufferService's inner pipeline (PipelineBinding<InFlightService(1)>): the binding
    index is used by BufferService::ready / shutdown, every call_nowait / call clone has its own;
@@ -364,7 +392,8 @@ Definition filter_valid (f : N) : bool := (f =? 1) || (f =? 2).
 Inductive outcome :=
 | ODone (r : cres)
 | OHandler (q2 qos id topic plen retain : N)
-| OCtl (m : cmsg).
+| OCtl (m : cmsg)
+| OCtlP (m : cmsg) (qos id topic plen retain : N).   (* client: unrouted PUBLISH -> ProtocolMessage::Publish *)
 
 Definition proto_err (r : N) : outcome := ODone (RErr (EProto r)).
 
@@ -398,7 +427,7 @@ Definition body3 (p : pkt) (s : st) : st * outcome :=
     else if memN id (inflight (p_ s)) then (s, proto_err 130)
     else (up_p (p_inflight (inflight (p_ s) ++ [id])) s, OCtl (3, id))
   | KDisconnect _ _ => (up_p (p_dsent true) s, OCtl (4, 0))
-  | KAuth | KOther | KBad _ => (s, ODone RNone)
+  | KAuth | KAck2 | KOther | KBad _ => (s, ODone RNone)
   end.
 
 (* src/v5/dispatcher.rs  Service<Decoded>::call, up to the first await *)
@@ -469,6 +498,88 @@ Definition body5 (p : pkt) (s : st) : st * outcome :=
     else if negb (filter_valid f) then (s, proto_err 130)
     else if memN id (inflight (p_ s)) then (io_encode 176 id 145 s, ODone RNone)
     else (up_p (p_inflight (inflight (p_ s) ++ [id])) s, OCtl (3, id))
+  | KAck2 | KOther | KBad _ => (s, ODone RNone)
+  end.
+
+(* ================================================================== client roles
+   src/v3/client/dispatcher.rs, src/v5/client/dispatcher.rs *)
+Definition is_client (s : st) : bool := negb (role (c_ s) =? 0).
+
+(* v3 MqttShared::close() of a client: DISCONNECT unless one was sent, then io.close() *)
+Definition close3c (s : st) : st :=
+  let '(s1, sent) := test_set_dsent s in
+  io_close (if sent then s1 else io_encode 224 0 0 s1).
+
+(* the publish service of the client: the router (resources "t1", "t2") or the protocol service *)
+Definition route_pub (q2 qos id topic plen retain : N) (s : st) : outcome :=
+  let t := if topic <=? 3 then topic else 0 in
+  if route (c_ s) && ((t =? 1) || (t =? 2)) then OHandler q2 qos id t plen retain
+  else OCtlP (7, id) qos id t plen retain.
+
+Definition body3c (p : pkt) (s : st) : st * outcome :=
+  match p with
+  | KPublish qos id topic _ retain plen =>
+    if (0 <? qos) && memN id (inflight (p_ s)) then (s, proto_err 130)
+    else
+      let s1 := if 0 <? qos then up_p (p_inflight (inflight (p_ s) ++ [id])) s else s in
+      (s1, route_pub (b2n (qos =? 2)) qos id topic plen retain s1)
+  | KPuback _ | KPubrec _ | KPubcomp _ | KAck2 => (close3c s, proto_err 130)
+  | KPubrel id =>
+    if memN id (pubrel (p_ s)) then (s, OCtl (1, id)) else (close3c s, ODone RNone)
+  | KPing | KDisconnect _ _ | KSubscribe _ _ | KUnsubscribe _ _ => (s, proto_err 130)
+  | KAuth | KOther | KBad _ => (s, ODone RNone)
+  end.
+
+Definition body5c (p : pkt) (s : st) : st * outcome :=
+  match p with
+  | KPublish qos id topic alias retain plen =>
+    let chk :=
+      if 0 <? qos then
+        if (negb (rmax (c_ s) =? 0)) && (rmax (c_ s) <=? N.of_nat (length (inflight (p_ s))))
+        then (s, Some (proto_err 147))
+        else if memN id (inflight (p_ s)) then
+          (io_encode (if qos =? 2 then 80 else 64) id 145 s, Some (ODone RNone))
+        else (up_p (p_inflight (inflight (p_ s) ++ [id])) s, None)
+      else (s, None) in
+    match chk with
+    | (s1, Some o) => (s1, o)
+    | (s1, None) =>
+      let al :=
+        if alias =? 0 then (s1, Some topic)
+        else if topic =? 0 then
+          match assocN alias (aliases (p_ s1)) with
+          | Some t => (s1, Some t)
+          | None => (s1, None)
+          end
+        else
+          match assocN alias (aliases (p_ s1)) with
+          | Some t => (if t =? topic then s1
+                       else up_p (p_aliases (assoc_set alias topic (aliases (p_ s1)))) s1, Some topic)
+          | None => if 16 <? alias then (s1, Some 99)
+                    else (up_p (p_aliases (aliases (p_ s1) ++ [(alias, topic)])) s1, Some topic)
+          end in
+      match al with
+      | (s2, None) => (s2, proto_err 148)
+      | (s2, Some t) =>
+        if t =? 99 then (s2, proto_err 130)
+        else (s2, route_pub (b2n (qos =? 2)) qos id t plen retain s2)
+      end
+    end
+  | KPuback _ | KPubrec _ | KPubcomp _ | KAck2 =>
+    let s1 :=
+      if is_closed s then s
+      else let '(s', sent) := test_set_dsent s in
+           io_close (if sent then s' else io_encode 224 0 131 s') in
+    (s1, proto_err 130)
+  | KPubrel id =>
+    if memN id (pubrel (p_ s)) then (s, OCtl (1, id)) else (s, ODone (RSome 112 id 146))
+  | KDisconnect _ se =>
+    if 0 <? se then (s, proto_err 130)
+    else
+      let s2 := up_p (p_dsent true) s in
+      let s3 := if is_closed s2 then s2 else io_close s2 in
+      (s3, OCtl (4, 0))
+  | KAuth | KPing | KSubscribe _ _ | KUnsubscribe _ _ => (s, proto_err 130)
   | KOther | KBad _ => (s, ODone RNone)
   end.
 
@@ -477,7 +588,8 @@ Definition body5 (p : pkt) (s : st) : st * outcome :=
 Inductive pack :=
 | AErr
 | A3Ping | A3Sub | A3Unsub | A3Disc | A3Pubrel           (* v3 ProtocolMessageKind *)
-| A5Pkt (t r : N) (disc : bool) | A5Disc (r : N) | A5None.  (* v5 Pkt + disconnect flag *)
+| A5Pkt (t r : N) (disc : bool) | A5Disc (r : N) | A5None   (* v5 Pkt + disconnect flag *)
+| A5Nothing.                                               (* v5 Pkt::None, disconnect = false *)
 
 Definition ack3 (kind res : N) : pack :=
   if res =? 9 then (if kind =? 5 then A3Ping else A3Disc)
@@ -524,6 +636,7 @@ Definition ctl_result (m : cmsg) (a : pack) (s : st) : st * cres :=
   | A5None =>
     let s1 := if pid =? 0 then s else info_remove pid s in
     (io_close s1, RNone)
+  | A5Nothing => (if pid =? 0 then s else info_remove pid s, RNone)
   end.
 
 (* v5: TryFrom<HErr> for PublishAck in the harness: the PublishAckReason values >= 0x80 *)
@@ -553,6 +666,51 @@ Definition handler_result (q2 id res : N) (s : st) : st * cres :=
       else (up_p (p_inflight (remN id (inflight (p_ s)))) s, RSome 64 id 0)
     else (s, RErr EServ).
 
+(* client publish_fn after the routed handler completed *)
+Definition handler_result_c (q2 id res : N) (s : st) : st * cres :=
+  if v5 (c_ s) then
+    let code := if res =? 0 then Some 0 else if neg_ack_code res then Some res else None in
+    match code with
+    | None => (s, RErr EServ)
+    | Some rc =>
+      if id =? 0 then (s, RNone)
+      else if q2 =? 1 then
+        let s1 := if rc <? 128 then up_p (p_pubrel (addN id (pubrel (p_ s)))) s
+                  else info_remove id s in
+        (s1, RSome 80 id rc)
+      else (info_remove id s, RSome 64 id rc)
+    end
+  else
+    if res =? 0 then
+      if id =? 0 then (s, RNone)
+      else if q2 =? 1 then (up_p (p_pubrel (addN id (pubrel (p_ s)))) s, RSome 80 id 0)
+      else (up_p (p_inflight (remN id (inflight (p_ s)))) s, RSome 64 id 0)
+    else (s, RErr EServ).
+
+(* client Inner::control / control_pkt after the protocol service answered;
+   res 0 = msg.ack(), 2 = typed ack (v5 Publish: ack(Success)), other = Err *)
+Definition ctl_result_c (m : cmsg) (res : N) (s : st) : st * cres :=
+  let '(kind, pid) := m in
+  if v5 (c_ s) then
+    let a := if (res =? 0) || (res =? 2) then
+               (if kind =? 7 then
+                  (if res =? 0 then A5Disc 131 else if pid =? 0 then A5Nothing else A5Pkt 64 0 false)
+                else if kind =? 1 then A5Pkt 112 0 false
+                else if kind =? 4 then A5None
+                else A5Pkt 208 0 false)
+             else AErr in
+    ctl_result m a s
+  else
+    if (res =? 0) || (res =? 2) then
+      if kind =? 7 then
+        if pid =? 0 then (s, RNone)
+        else (up_p (p_inflight (remN pid (inflight (p_ s)))) s, RSome 64 pid 0)
+      else if kind =? 1 then
+        (up_p (fun x => p_inflight (remN pid (inflight x)) (p_pubrel (remN pid (pubrel x)) x)) s,
+         RSome 112 pid 0)
+      else (s, RSome 208 0 0)
+    else (close3c s, RErr EServ).
+
 (* ------------------------------------------------------------------ limiter (src/inflight.rs) *)
 Definition lim_avail (s : st) : bool :=
   (lcap (c_ s) =? 0) || (lim (b_ s) <? lcap (c_ s)).
@@ -560,7 +718,9 @@ Definition lim_avail (s : st) : bool :=
 Definition lim_inc (s : st) : st :=
   let n := lim (b_ s) + 1 in
   let s1 := up_b (b_lim n) s in
-  if n =? lcap (c_ s1) then wake_lim s1 else s1.
+  (* src/inflight.rs wakes the registered task when the limit is reached; ntex-util's Counter
+     (v3 client) does not *)
+  if (role (c_ s1) =? 0) && (n =? lcap (c_ s1)) then wake_lim s1 else s1.
 
 Definition lim_dec (s : st) : st :=
   let n := lim (b_ s) in
@@ -622,23 +782,63 @@ Fixpoint ctl_enter (n : nat) (who : task) (k : N) (m : cmsg) (w : option N) (s :
     end
   end.
 
+(* ------------------------------------------------------------------ client: calls *)
+(* client `self.control.call(msg)`: no buffer, no in-flight limit: the protocol service is invoked
+   at once; an unrouted PUBLISH also logs its fields (h = 1000 + c) *)
+Definition cproto_finish (m : cmsg) (res : N) (s : st) : st * option cres :=
+  let '(s1, r) := ctl_result_c m res s in (s1, Some r).
+
+Definition cproto_invoke (k : N) (m : cmsg) (plog_extra : option (list N)) (s : st) : st * option cres :=
+  let c := np (l_ s) + 1 in
+  let s1 := up_l (fun x => l_np c (l_plog (plog x ++ [c; fst m]) x)) s in
+  let s2 := match plog_extra with
+            | Some f => up_l (fun x => l_hlog (hlog x ++ (1000 + c) :: f) x) s1
+            | None => s1
+            end in
+  match gate_val c (pgate (l_ s2)) with
+  | Some res => cproto_finish m res s2
+  | None => (set_cst k (CProto c m false) s2, None)
+  end.
+
 (* ------------------------------------------------------------------ one call *)
 Definition log_handler (h qos id topic plen retain : N) (s : st) : st :=
   up_l (fun x => l_nh h (l_hlog (hlog x ++ [h; qos; id; topic; plen; retain]) x)) s.
 
+Definition hres_any (q2 id res : N) (s : st) : st * cres :=
+  if is_client s then handler_result_c q2 id res s else handler_result q2 id res s.
+
 Definition body (who : task) (k : N) (p : pkt) (s : st) : st * option cres :=
-  let '(s1, o) := if v5 (c_ s) then body5 p s else body3 p s in
+  let '(s1, o) := if is_client s then (if v5 (c_ s) then body5c p s else body3c p s)
+                  else (if v5 (c_ s) then body5 p s else body3 p s) in
   match o with
   | ODone r => (s1, Some r)
   | OHandler q2 qos id topic plen retain =>
     let h := nh (l_ s1) + 1 in
     let s2 := log_handler h qos id topic plen retain s1 in
     match gate_val h (hgate (l_ s2)) with
-    | Some res => let '(s3, r) := handler_result q2 id res s2 in (s3, Some r)
+    | Some res => let '(s3, r) := hres_any q2 id res s2 in (s3, Some r)
     | None => (set_cst k (CHandler h q2 id) s2, None)
     end
-  | OCtl m => ctl_enter 2 who k m None s1
+  | OCtl m => if is_client s1 then cproto_invoke k m None s1 else ctl_enter 2 who k m None s1
+  | OCtlP m qos id topic plen retain => cproto_invoke k m (Some [qos; id; topic; plen; retain]) s1
   end.
+
+(* v3 client: ntex-util InFlightService::call = ctx.ready(self) (capacity), the guard, then
+   ctx.call(&Dispatcher) whose readiness never blocks *)
+Definition climgate (who : task) (k : N) (p : pkt) (s : st) : st * option cres :=
+  let blocked := match sp_cur (s_ s) with
+                 | None => false
+                 | Some OBind => true
+                 | Some (OCall j) => negb (j =? k)
+                 end in
+  if blocked then (sp_push who (set_cst k (CLimWait p) s), None)
+  else if lim_avail s then
+    let s1 := sp_notify (up_s (s_spcur (Some (OCall k))) s) in
+    let s2 := up_s (fun x => s_calls (upd_call k (fun c => mkCall (cid c) (cst c) true (chost c) (ckey c)) (calls x)) x) s1 in
+    body who k p (lim_inc s2)
+  else
+    (sp_push who (set_cst k (CLimWait p)
+       (up_b (b_wlim (Some who)) (up_s (s_spcur (Some (OCall k))) s))), None).
 
 (* ctx.call(&Dispatcher, req): the shared readiness check (Dispatcher::ready) then the body *)
 Definition gate (who : task) (k : N) (p : pkt) (w : option N) (s : st) : st * option cres :=
@@ -661,13 +861,17 @@ Definition poll_call (who : task) (k : N) (s : st) : st * option cres :=
   | Some c =>
     match cst c with
     | CInit p =>
-      (* InFlightServiceImpl::call: the counter guard is taken first *)
-      let s1 := up_s (fun x => s_calls (upd_call k (fun c => mkCall (cid c) (cst c) true (chost c) (ckey c)) (calls x)) x) s in
-      gate who k p None (lim_inc s1)
+      if is_client s then
+        (if v5 (c_ s) then body who k p s else climgate who k p s)
+      else
+        (* InFlightServiceImpl::call: the counter guard is taken first *)
+        let s1 := up_s (fun x => s_calls (upd_call k (fun c => mkCall (cid c) (cst c) true (chost c) (ckey c)) (calls x)) x) s in
+        gate who k p None (lim_inc s1)
+    | CLimWait p => climgate who k p s
     | CGate p w => gate who k p w s
     | CHandler h q2 id =>
       match gate_val h (hgate (l_ s)) with
-      | Some res => let '(s1, r) := handler_result q2 id res s in (s1, Some r)
+      | Some res => let '(s1, r) := hres_any q2 id res s in (s1, Some r)
       | None => (s, None)
       end
     | CCtlA m o n => ctl_enter n who k m (Some o) s
@@ -676,7 +880,7 @@ Definition poll_call (who : task) (k : N) (s : st) : st * option cres :=
     | CWaitCnt m g => inner_call who k m g s
     | CProto c m g =>
       match gate_val c (pgate (l_ s)) with
-      | Some res => proto_finish k m g res s
+      | Some res => if is_client s then cproto_finish m res s else proto_finish k m g res s
       | None => (s, None)
       end
     end
@@ -702,7 +906,7 @@ Definition cancel_call (k : N) (s : st) : st :=
                 | _ => s2
                 end in
       if g then wake_guard k s3 else s3
-    | CProto _ _ g => release_guards k g s2
+    | CProto _ _ g => if is_client s2 then s2 else release_guards k g s2
     | _ => s2
     end
   end.
@@ -769,7 +973,7 @@ Definition retire_call (k : N) (s : st) : st :=
 
 (* ------------------------------------------------------------------ the dispatcher's readiness *)
 (* PipelineBinding::poll_ready of the io service: InFlightServiceImpl::ready -> Dispatcher::ready *)
-Definition r1_poll (s : st) : st * bool :=
+Definition r1_poll_srv (s : st) : st * bool :=
   match sp_cur (s_ s) with
   | Some (OCall _) => (sp_push TD s, false)
   | _ =>
@@ -779,7 +983,7 @@ Definition r1_poll (s : st) : st * bool :=
                              | RRun a b x => (a, b, x)
                              end in
     let '(s1, ldone1) := if need && negb ldone
-                         then (up_b (b_wlim true) s0, lim_avail s0) else (s0, ldone) in
+                         then (up_b (b_wlim (Some TD)) s0, lim_avail s0) else (s0, ldone) in
     let '(s2, d1) :=
       match d with
       | RDdone => (s1, RDdone)
@@ -794,6 +998,31 @@ Definition r1_poll (s : st) : st * bool :=
     if fin then (sp_notify (up_s (s_r1 RIdle) s2), true)
     else (sp_push TD (up_s (s_r1 (RRun need ldone1 d1)) s2), false)
   end.
+
+
+(* client: v3 = ntex-util InFlightService::ready around Dispatcher::ready (which never blocks: the
+   control service is a plain Pipeline), v5 = Dispatcher::ready only *)
+Definition r1_poll_cli (s : st) : st * bool :=
+  match sp_cur (s_ s) with
+  | Some (OCall _) => (sp_push TD s, false)
+  | _ =>
+    let s0 := up_s (s_spcur (Some OBind)) s in
+    if v5 (c_ s0) then (sp_notify (up_s (s_r1 RIdle) s0), true)
+    else
+      let '(need, ldone) := match r1 (s_ s0) with
+                            | RIdle => (negb (lim_avail s0), false)
+                            | RRun a b _ => (a, b)
+                            end in
+      (* join(count.available(), ..): Counter::poll_available registers only when unavailable *)
+      let '(s1, ldone1) := if need && negb ldone
+                           then (if lim_avail s0 then (s0, true) else (up_b (b_wlim (Some TD)) s0, false))
+                           else (s0, ldone) in
+      if negb need || ldone1 then (sp_notify (up_s (s_r1 RIdle) s1), true)
+      else (sp_push TD (up_s (s_r1 (RRun need ldone1 RDdone)) s1), false)
+  end.
+
+Definition r1_poll (s : st) : st * bool :=
+  if is_client s then r1_poll_cli s else r1_poll_srv s.
 
 (* ------------------------------------------------------------------ the dispatcher *)
 (* DispatcherInner::call_service *)
@@ -836,7 +1065,8 @@ Definition stop_reason (e : errk) : N := match e with EProto r => r | EServ => 1
    (src/v3/default.rs / src/v5/default.rs ControlService::call around the harness service) *)
 Definition do_stop (kind reason : N) (s : st) : st :=
   let s0 := fst (r1_poll s) in
-  let s1 := up_l (fun x => l_stops (stops x + 1) (if stops x =? 0 then l_stop1 kind x else x)) s0 in
+  let s1 := if is_client s0 && route (c_ s0) then s0    (* ClientRouter::start: no control hook *)
+            else up_l (fun x => l_stops (stops x + 1) (if stops x =? 0 then l_stop1 kind x else x)) s0 in
   let s2 :=
     if v5 (c_ s1) && negb (kind =? 3) then
       let '(s', sent) := test_set_dsent s1 in
@@ -938,7 +1168,7 @@ Fixpoint d_loop (fuel : nat) (s : st) : st :=
                 | RRun _ _ _ => sp_notify (up_s (s_r1 RIdle) s)
                 | RIdle => s
                 end in
-      let s2 := io_close s1 in
+      let s2 := if is_client s1 && negb (v5 (c_ s1)) then close3c s1 else io_close s1 in
       match nextc (b_ s2) with
       | Some o =>
         let s3 := up_b (b_nextc None) s2 in
@@ -1099,20 +1329,46 @@ Definition init_st (is5 : bool) (cf : list N) : st :=
                  (if is5 then (if a 1%nat =? 0 then 16 else a 1%nat) else 0)
                  (a 2%nat)
                  (if is5 then 0 else a 3%nat)
-                 (a 4%nat) in
+                 (a 4%nat) 0 false in
   mkSt c
        (mkPst [] [] [] [] false false)
-       (mkBst [] 0 None true None 0 false None [] [] None)
+       (mkBst [] 0 None true None 0 None None [] [] None)
        (mkIst [] [] false false false true true false [])
        (mkSst [] None false [] 0 RIdle None [] DProc false EServ [] [] 0)
        (mkLst [] [] 0 0 0 0 [] [])
        rq_init.
 
+(* queue[idx] out of bounds in DispatcherState::handle_result would be a panic of the real code *)
+Fixpoint any_panic (ops : list (list N)) (s : st) : bool :=
+  match ops with
+  | [] => panicked (q_ s)
+  | f :: r => let s1 := run_all 400 (step_op f s) in panicked (q_ s1) || any_panic r (clear_obs s1)
+  end.
+
 Definition run_inb (is5 : bool) (c : list (list N)) : list (list N) :=
   match c with
   | [] => []
-  | cf :: ops => run_ops ops (init_st is5 cf)
+  | cf :: ops => if any_panic ops (init_st is5 cf) then [[9999]] else run_ops ops (init_st is5 cf)
+  end.
+
+(* client engines "cli3" = 39, "cli5" = 40: configuration [max_receive (0 = default); route] *)
+Definition init_st_cli (is5 : bool) (cf : list N) : st :=
+  let a := fun n => nth0 cf n in
+  let s := init_st is5 [2; 0; 16; 0; 1] in
+  let c := mkCfg is5 2
+                 (if is5 then (if a 0%nat =? 0 then 65535 else a 0%nat) else 0)
+                 16
+                 (if is5 then 0 else (if a 0%nat =? 0 then 16 else a 0%nat))
+                 1 1 (a 1%nat =? 1) in
+  mkSt c (p_ s) (b_ s) (i_ s) (s_ s) (l_ s) (q_ s).
+
+Definition run_cli (is5 : bool) (c : list (list N)) : list (list N) :=
+  match c with
+  | [] => []
+  | cf :: ops => if any_panic ops (init_st_cli is5 cf) then [[9999]] else run_ops ops (init_st_cli is5 cf)
   end.
 
 Definition run_inb3 (c : list (list N)) : list (list N) := run_inb false c.
+Definition run_cli3 (c : list (list N)) : list (list N) := run_cli false c.
+Definition run_cli5 (c : list (list N)) : list (list N) := run_cli true c.
 Definition run_inb5 (c : list (list N)) : list (list N) := run_inb true c.
